@@ -672,6 +672,9 @@ def run(tier: str, replay: str | None = None):
                 blocks = [op for op in sm.get_opcodes() if op[0] != "equal"]
                 if len(blocks) != 1:
                     problems.append(f"{len(blocks)} separate blocks of lines changed")
+            # tie of C16_statement_replacement: the replacement deletes one consecutive range of lines
+            if ap is not None and ap["del"] and sorted(ap["del"]) != list(range(min(ap["del"]), max(ap["del"]) + 1)):
+                problems.append(f"the replacement deletes a non-consecutive set of lines: {ap['del']}")
             hist["fix_ok" if not problems else "fix_fail"] += 1
             # correspondence for _apply_changes_to_lines: queue the recorded Replacement for the translated function
             if exe is not None and ap is not None:
